@@ -29,15 +29,24 @@ def check(run):
     scratch = core.scratch_dir()
     try:
         nprog = 48 if quick else 300
-        for pi in range(nprog):
-            prog = genprog.generate(rng, rng.choice([6, 9, 12]), want=genprog.RARE[pi % len(genprog.RARE)])
+        # every way a consumer can be linked to a producer as the only link (deterministic), then generated programs
+        progs = list(genprog.single_link_programs())
+        nfixed = len(progs)
+        for pi in range(nprog + nfixed):
+            prog = progs[pi] if pi < nfixed else genprog.generate(rng, rng.choice([6, 9, 12]), want=genprog.RARE[pi % len(genprog.RARE)])
             d = os.path.join(scratch, 'p%d' % pi)
             os.makedirs(d)
             P = G.analyse_with_values(prog.text, d)
             n = P['n']
             targets = sorted({nm.split('.')[-1] for nm in P['names']})
-            if quick:
-                targets = rng.sample(targets, min(4, len(targets)))
+            if quick and pi < nfixed:
+                # single-link program: the producers of the link
+                targets = [t for t in targets if t not in ('use', 'inc', 'const')][:3]
+            elif quick:
+                # always the producers whose consumers are easiest to lose (map blocks, index tasks), plus a sample of the others
+                must = [t for t in targets if t in ('_jug_map', 'idx', 'mk')]
+                rest = [t for t in targets if t not in must]
+                targets = must + rng.sample(rest, min(3, len(rest)))
             for ti, target in enumerate(targets):
                 for variant in ('cli', 'shell'):
                     kind = ['file', 'dict', 'redis', 'filepack'][(ti + (variant == 'shell')) % 4]
